@@ -138,6 +138,16 @@ def snapshot(world, with_queries=True):
             "contents": {path_str(k): v for k, v in world.contents().items()}}
     if with_queries:
         snap["queries"] = queries(world)
+    # the namespace: which container each label of the manager stands for
+    ns = []
+    for label, r in world.mgr.containers.items():
+        o = getattr(r, "_owner", None)
+        try:
+            sid = object.__getattribute__(o, "_sid")
+        except AttributeError:
+            sid = None
+        ns.append((str(label), str(world.sidpath.get(sid, sid)) if sid is not None else type(o).__name__))
+    snap["namespace"] = sorted(ns)
     return snap
 
 
@@ -151,6 +161,9 @@ def diff_snapshot(a, b, same):
     for k in a["contents"]:
         if not same(a["contents"][k], b["contents"].get(k)):
             return "content of %s differs: %r vs %r" % (k, a["contents"][k], b["contents"].get(k))
+    if "namespace" in a and "namespace" in b and a["namespace"] != b["namespace"]:
+        return "container labels differ: %s vs %s" % ([x for x in a["namespace"] if x not in b["namespace"]][:2],
+                                                       [x for x in b["namespace"] if x not in a["namespace"]][:2])
     if "queries" in a and "queries" in b and a["queries"] != b["queries"]:
         for k in a["queries"]:
             if a["queries"][k] != b["queries"].get(k):
